@@ -93,7 +93,12 @@ def harness(L, what, K, max_pre, max_to):
             want = sig(list(core.split(prefix, sr=thr.SR, sw=thr.SW, ch=thr.CH, analysis_window=0.1, validator=thr.window_validator(data), **thr.SPLIT_KW)))
             fails = judge(what, obs, want, file_bytes(fs, "stream.wav"))
         if not fails:
-            return {"status": "ok", "blocks_read_before_stop": len(obs["read"]), "schedule_len": len(s.log)}
+            out = {"status": "ok", "blocks_read_before_stop": len(obs["read"]), "schedule_len": len(s.log)}
+            if __import__("zlib").crc32(bytes(e.trace)) % 61 == 0:
+                mm = e.model()
+                if mm is not None:
+                    out["instance"] = {"windows": tok.stream_str(thr.bits_from_model(mm, K)), "schedule": compact([list(x) for x in s.log])}
+            return out
         m = e.model()
         return {"status": "cex", "failing": fails[:2], "cex": mk(m, meta, s, cb)}
     return path
